@@ -295,6 +295,90 @@ func ruleKind(c *Ctx) {
 	}
 	c.atLeast("reflect.Type signature queries on Funcs values", nRef, 6)
 
+	// INDEX-SPACE: AWK-defined and native functions are numbered separately (FuncInfo.Index counts within its kind).
+	// A slice that is per native function may be indexed by info.Index only where info.Native is known to hold.
+	nIdx := 0
+	for _, pk := range []string{"internal/compiler", "interp", "internal/resolver"} {
+		for _, fn := range c.srcFuncs(pk) {
+			fn := fn
+			allInstrs(fn, func(in ssa.Instruction) {
+				ia, ok := in.(*ssa.IndexAddr)
+				if !ok {
+					return
+				}
+				// the indexed slice is a field whose name says "native"
+				base := ia.X
+				if u, ok := base.(*ssa.UnOp); ok {
+					base = u.X
+				}
+				fa, ok := base.(*ssa.FieldAddr)
+				if !ok {
+					return
+				}
+				f, _ := fieldOfAddr(fa)
+				if f == nil || !strings.Contains(strings.ToLower(f.Name()), "native") {
+					return
+				}
+				// the index is FuncInfo.Index of some value v
+				var holder ssa.Value
+				switch ix := ia.Index.(type) {
+				case *ssa.Field:
+					if isNamed(ix.X.Type(), modPath+"/internal/resolver", "FuncInfo") && fieldNameOf(ix.X.Type(), ix.Field) == "Index" {
+						holder = ix.X
+					}
+				case *ssa.UnOp:
+					if fa2, ok := ix.X.(*ssa.FieldAddr); ok {
+						if f2, x2 := fieldOfAddr(fa2); f2 != nil && f2.Name() == "Index" && isNamed(deref(x2.Type()), modPath+"/internal/resolver", "FuncInfo") {
+							holder = x2
+						}
+					}
+				}
+				if holder == nil {
+					return
+				}
+				nIdx++
+				// a dominating test of holder.Native
+				guarded := false
+				for _, d := range fn.Blocks {
+					if len(d.Instrs) == 0 {
+						continue
+					}
+					iff, ok := d.Instrs[len(d.Instrs)-1].(*ssa.If)
+					if !ok {
+						continue
+					}
+					cond := iff.Cond
+					sense := 0
+					for {
+						if u, ok := cond.(*ssa.UnOp); ok && u.Op == token.NOT {
+							cond = u.X
+							sense = 1 - sense
+							continue
+						}
+						break
+					}
+					isNative := false
+					switch cv := cond.(type) {
+					case *ssa.Field:
+						isNative = cv.X == holder && fieldNameOf(cv.X.Type(), cv.Field) == "Native"
+					case *ssa.UnOp:
+						if fa3, ok := cv.X.(*ssa.FieldAddr); ok {
+							if f3, x3 := fieldOfAddr(fa3); f3 != nil && f3.Name() == "Native" && x3 == holder {
+								isNative = true
+							}
+						}
+					}
+					if isNative && (edgeDominates(d, sense, in.Block()) || d.Succs[sense] == in.Block()) {
+						guarded = true
+					}
+				}
+				c.check(guarded, "index-space:"+fnKey(fn)+":"+f.Name(), in.Pos(), "indexed by FuncInfo.Index only where the function is known to be native",
+					fnKey(fn)+" indexes "+f.Name()+" by FuncInfo.Index without having tested FuncInfo.Native: AWK-defined and native functions are numbered separately, so an AWK function overwrites or reads the entry of the native function with the same number (which one wins depends on map iteration order)")
+			})
+		}
+	}
+	c.atLeast("per-native-function tables indexed by FuncInfo.Index", nIdx, 1)
+
 	// ATOMIC: setExecuteConfig runs initNativeFuncs only while p.nativeFuncs is nil, so the table must not
 	// be assigned before every check has passed - no error return may follow a store to it
 	if inf := c.ssaFunc("interp", "interp.initNativeFuncs"); inf != nil {
